@@ -586,6 +586,79 @@ fn run_with<P: Payload + Clone>(args: &[String]) -> i32 {
             r.churn(d.new, 200 + (seed % 50) as u32, 3, false);
             r.drive("c17", events, max_slots);
         }
+        "boundary-full" => {
+            // the end of the generation counter of the LAST slot of a storage that is exactly full
+            // (with_capacity(4), four nodes): what a full Vec does next must not disturb a retired slot
+            r.reset(4);
+            let mut last = 0;
+            for v in 1..=4u32 {
+                last = r.call(&Call { op: "new".into(), a: 0, b: 0, v, checked: false, r: vec![] }).new;
+            }
+            if let Err(e) = r.fast_forward(last, 32750 + (seed % 11) as u32) {
+                eprintln!("harness: fast-forward failed: {}", e);
+                return 2;
+            }
+            // the last generations go away through remove_subtree, the slot having a left sibling and a child each time
+            // (a slot that is retired instead of recycled must be left as bare as any other removed slot)
+            r.call(&Call { op: "append".into(), a: 1, b: 2, v: 0, checked: true, r: vec![] });
+            let mut cur = last;
+            for _ in 0..40 {
+                if r.broken || !r.live_slots().contains(&cur) {
+                    break;
+                }
+                r.call(&Call { op: "append".into(), a: 1, b: cur, v: 0, checked: true, r: vec![] });
+                let v = r.next_val;
+                r.next_val += 1;
+                r.call(&Call { op: "append_value".into(), a: cur, b: 0, v, checked: false, r: vec![] });
+                r.call(&Call { op: "remove_subtree".into(), a: cur, b: 0, v: 0, checked: false, r: vec![] });
+                let mut back = 0;
+                for _ in 0..2 {
+                    let v = r.next_val;
+                    r.next_val += 1;
+                    let d = r.call(&Call { op: "new".into(), a: 0, b: 0, v, checked: false, r: vec![] });
+                    if d.class == "Ok" && d.new == last {
+                        back = d.new;
+                    }
+                }
+                if back == 0 {
+                    break; // retired (or no longer handed out): life goes on without it
+                }
+                cur = back;
+            }
+            r.drive("recycle", 60, 8);
+        }
+        "boundary-long" => {
+            // an implementation that never retires a slot (allowed) must still never reissue an id: when the slot keeps
+            // coming back after 32 768 generations it is driven through 70 000 more (every id checked for freshness)
+            r.reset(0);
+            let slot = r.call(&Call { op: "new".into(), a: 0, b: 0, v: 1, checked: false, r: vec![] }).new;
+            r.call(&Call { op: "new".into(), a: 0, b: 0, v: 2, checked: false, r: vec![] });
+            if let Err(e) = r.fast_forward(slot, 32750) {
+                eprintln!("harness: fast-forward failed: {}", e);
+                return 2;
+            }
+            r.churn(slot, 40, 0, false);
+            for round in 0..3 {
+                // does the slot still come back?
+                let live = r.live_slots().contains(&slot);
+                let cur = if live {
+                    slot
+                } else {
+                    let v = r.next_val;
+                    r.next_val += 1;
+                    r.call(&Call { op: "new".into(), a: 0, b: 0, v, checked: false, r: vec![] }).new
+                };
+                if cur != slot || r.broken {
+                    break;
+                }
+                if let Err(e) = r.fast_forward(slot, if round == 0 { 32700 } else { 40000 }) {
+                    eprintln!("harness: fast-forward failed: {}", e);
+                    return 2;
+                }
+                r.churn(slot, 80, 0, false);
+            }
+            r.drive("recycle", 40, 5);
+        }
         "boundary" | "boundary-real" | "boundary-plain" => {
             // C06/C07 at the end of the generation counter of one slot
             let real = mix == "boundary-real";
